@@ -7,7 +7,7 @@ from . import C01
 from pyPRISM.core.Space import Space
 
 RULE = ("metamorphic relations on the IMPLEMENTATION, at the level of a single cost evaluation (exact to rounding, arbitrary x, no convergence needed) and on converged solves: "
-        "(perm) every permutation of the type list of random 2-3 component systems with a different closure/potential/omega per pair: cost(pi.sys)(pi.x) = pi.cost(sys)(x), all stored arrays permuted; "
+        "(perm) every permutation of the type list of random 2-4 component systems with a different closure/potential/omega per pair: cost(pi.sys)(pi.x) = pi.cost(sys)(x), all stored arrays permuted; "
         "renaming the types (strings, integers whose values differ from their positions); (split) a 1-component system vs its split into 2-3 labelled species with identical interactions, ratios 0.1-0.9 and tracer-level fractions 1e-6..1e-3: monatomic (SingleSite/NoIntra) and homopolymer -> symmetric diblock "
         "halves with the exact block omegas (cross omega normalised by 1/(N_A+N_B)), also next to a solvent species (rank 3): cost(split)(lift x) = lift cost(x); (scale) every energy parameter and kT multiplied by s in 1e-2..1e2, kT given to the "
         "constructor or assigned afterwards: cost identical, pmf multiplied by s; the permuted/split/scaled descriptions are also fed to the Lean model (cost correspondence). "
@@ -79,12 +79,13 @@ def suite_perm(ctx, case):
         y2 = s2.createPRISM().cost(x.reshape(-1).copy()).reshape((L, n, n))
     ctx.pred('perm', case, bool(np.array_equal(y2, y0)), 'renaming the types changed cost(x)', key='C04:rename')
 
-def chain_E(k, sigma):
+def chain_E(k, sigma, chain='gauss'):
+    if chain == 'fjc': return np.sin(k * sigma) / (k * sigma)          # rigid bonds: the cross-block omega has NEGATIVE lobes
     return np.exp(-k * k * sigma * sigma / 6.0)
 
-def block_omegas(k, sigma, M):
-    """exact omegas of the two halves (M beads each) of a Gaussian chain of N = 2M beads"""
-    E = chain_E(k, sigma); N = 2 * M
+def block_omegas(k, sigma, M, chain='gauss'):
+    """exact omegas of the two halves (M beads each) of a Gaussian / freely-jointed chain of N = 2M beads"""
+    E = chain_E(k, sigma, chain); N = 2 * M
     def intra(m):
         s = np.zeros_like(k)
         for a in range(m):
@@ -102,7 +103,7 @@ def suite_split(ctx, case):
     pr = base['pairs']['00']
     if case['kind'] == 'diblock':
         M = case['M']; sigma = case['sigma']
-        wtot, wAA, wAB = block_omegas(d.k, sigma, M)
+        wtot, wAA, wAB = block_omegas(d.k, sigma, M, case.get('chain', 'gauss'))
         base = copy.deepcopy(base); base['pairs']['00']['om'] = ['arr', 0] + [float(v) for v in wtot]
     x1 = np.array(case['x'], dtype=float)
     p0, y0 = run_cost(base, x1)
@@ -193,7 +194,7 @@ def suite_split_solvent(ctx, case):
     """a homopolymer P in a solvent S  vs  its two labelled halves A|B in S (a rank-3 system with a non-zero cross omega)"""
     base = copy.deepcopy(case['base']); L, dr = base['dom']; M = case['M']; sigma = case['sigma']
     d = pyPRISM.Domain(length=L, dr=dr)
-    wtot, wAA, wAB = block_omegas(d.k, sigma, M)
+    wtot, wAA, wAB = block_omegas(d.k, sigma, M, case.get('chain', 'gauss'))
     base['pairs']['00']['om'] = ['arr', 0] + [float(v) for v in wtot]
     x2 = np.array(case['x'], dtype=float).reshape((L, 2, 2)); x2 = (x2 + x2.transpose(0, 2, 1)) / 2
     p0, y0 = run_cost(base, x2.reshape(-1))
@@ -231,8 +232,8 @@ def gen_base1(rng, L):
 def generate(ctx):
     rng = ctx.rng
     for _ in range(ctx.n(40, 400)):
-        sd = G.gen_system(rng, maxn=3, maxL=ctx.n(20, 48))
-        while sd['n'] < 2: sd = G.gen_system(rng, maxn=3, maxL=ctx.n(20, 48))
+        sd = G.gen_system(rng, maxn=4, maxL=ctx.n(20, 48))
+        while sd['n'] < 2: sd = G.gen_system(rng, maxn=4, maxL=ctx.n(20, 48))
         perms = [list(q) for q in itertools.permutations(range(sd['n']))][1:]
         for perm in (perms if not ctx.quick() else [rng.choice(perms)]):
             case = {'sys': sd, 'perm': perm, 'x': G.gen_x(rng, sd, 'moderate'),
@@ -248,7 +249,7 @@ def generate(ctx):
         kind = rng.choice(['monatomic', 'monatomic', 'diblock'])
         case = {'base': base, 'ratios': ratios, 'kind': kind, 'x': G.gen_x(rng, base, 'moderate')}
         if kind == 'diblock':
-            case['ratios'] = [0.5, 0.5]; case['M'] = rng.choice([1, 2, 4]); case['sigma'] = float('%.3g' % rng.uniform(0.7, 1.3))
+            case['ratios'] = [0.5, 0.5]; case['M'] = rng.choice([1, 2, 3, 4]); case['sigma'] = float('%.3g' % rng.uniform(0.7, 1.3)); case['chain'] = rng.choice(['gauss', 'fjc'])
         else:
             base['pairs']['00']['om'] = ['single', 1]
         ctx.case('split', case, True, tags=['split:' + kind, 'parts:%d' % len(case['ratios'])]); suite_split(ctx, case)
@@ -258,7 +259,7 @@ def generate(ctx):
         base = {'n': 2, 'kT': b1['kT'], 'dom': [L, b1['dom'][1]], 'dens': [b1['dens'][0] * 0.5, b2['dens'][0] * 0.3], 'diam': [b1['diam'][0], G.grid_multiple(rng, b1['dom'][1], 0.6, 1.2)],
                 'pairs': {'00': b1['pairs']['00'], '11': dict(b2['pairs']['00'], om=['single', 1]),
                           '01': {'pot': copy.deepcopy(b2['pairs']['00']['pot']), 'clo': copy.deepcopy(b2['pairs']['00']['clo']), 'om': ['nointra', 0]}}}
-        case = {'base': base, 'M': rng.choice([1, 2, 4]), 'sigma': float('%.3g' % rng.uniform(0.7, 1.3)), 'x': G.gen_x(rng, base, 'moderate')}
+        case = {'base': base, 'M': rng.choice([1, 2, 3, 4]), 'sigma': float('%.3g' % rng.uniform(0.7, 1.3)), 'x': G.gen_x(rng, base, 'moderate'), 'chain': rng.choice(['gauss', 'fjc'])}
         ctx.case('split3', case, True, tags=['split:diblock+solvent']); suite_split_solvent(ctx, case)
     for _ in range(ctx.n(40, 400)):
         sd = G.gen_system(rng, maxn=2, maxL=ctx.n(20, 48))
